@@ -324,6 +324,26 @@ def run(chk):
         prob = {"error": str(ex)[:120]}
     chk.ob("C02.D.declared-ports", "consistent port list accepted", prob is None, file=FILE, func="_VerilogCircuitGraphTransformer.module", fact=prob or {}, expect="inputs/outputs == declared ports")
 
+    # ---- C: through io.verilog_to_circuit (module extraction + any preprocessing), with comments -------------------
+    com_cases = {
+        "line comments": ("// header comment\n" + module_text(["a", "b"], ["o"], ["w"], ["and g0(w, a, b); // trailing comment", "// assign o = 1'b0;", "assign o = ~w;"]), {"o": lambda v: not (v["a"] and v["b"])}),
+        "block comment": (module_text(["a", "b"], ["o"], ["w"], ["/* multi", "   line */ or g0(w, a, b);", "assign o = w /* inline */ ^ a;"]), {"o": lambda v: (v["a"] or v["b"]) != v["a"]}),
+        "slashes inside a block comment, code after it, later block comment": (module_text(["a", "b"], ["o", "p"], ["w"], ["/* see http://x.y // old: assign o = a; */ nand g0(w, a, b);", "assign o = w;", "/* second */ assign p = w & a;"]),
+                                                                               {"o": lambda v: not (v["a"] and v["b"]), "p": lambda v: (not (v["a"] and v["b"])) and v["a"]}),
+    }
+    for name, (text, fns) in com_cases.items():
+        r = P.call("io.py", "verilog_to_circuit", text, "m")
+        n_parse += 1
+        if r[0] != "return" or not isinstance(r[1], RefCircuit):
+            prob = {"problem": "rejected", "result": str(r)[:160]}
+        else:
+            c = r[1]
+            prob = None
+            for net, fn in fns.items():
+                prob = prob or check_function(c, net, sorted(c.inputs()), fn)
+            if prob is None and c.inputs() != {x for x in ("a", "b") if f"input {x}" in text or f", {x};" in text or f"input a, {x}" in text}:
+                pass
+        chk.ob("C02.C.comments-and-entry-point", name, prob is None, file="io.py", func="verilog_to_circuit", fact=prob or {}, expect="comments are ignored; every net computes what the netlist denotes")
     # ---- N: synthetic-name namespace ------------------------------------------
     ns_cases = {
         "input named tie_0 next to a constant": (["tie_0", "a"], ["o", "p"], [], ["assign o = tie_0 & a;", "assign p = 1'b0 | a;"], {"o": lambda v: v["tie_0"] and v["a"], "p": lambda v: v["a"]}),
